@@ -39,20 +39,27 @@ func init() {
 				if !textual {
 					continue
 				}
-				for _, st := range cc.Body {
-					as, ok := st.(*ast.AssignStmt)
+				k := 0
+				ast.Inspect(cc, func(x ast.Node) bool {
+					as, ok := x.(*ast.AssignStmt)
 					if !ok || len(as.Lhs) != 1 || len(as.Rhs) != 1 {
-						continue
+						return true
 					}
 					id, ok := as.Lhs[0].(*ast.Ident)
 					if !ok || id.Name != "convStr" {
-						continue
+						return true
 					}
 					n++
-					v := stripConv(info, as.Rhs[0])
+					k++
+					v := stripConv(info, stripConv(info, as.Rhs[0]))
 					vid, isId := v.(*ast.Ident)
-					c.Check(isId && vid.Name == bound, "R08g", "convertDataType:"+c.src(cc.List[0])+":verbatim", as.Pos(), "the stored string form is the value itself (got %s)", c.src(as.Rhs[0]))
-				}
+					key := "convertDataType:" + c.src(cc.List[0]) + ":verbatim"
+					if k > 1 {
+						key += "#" + itoa(k)
+					}
+					c.Check(isId && vid.Name == bound, "R08g", key, as.Pos(), "the stored string form is the value itself (got %s)", c.src(as.Rhs[0]))
+					return true
+				})
 			}
 			return true
 		})
